@@ -56,15 +56,15 @@ func c10methods() []c10method {
 		{"DisableFocus", func(s tcell.Screen, i int) { s.DisableFocus() }, true},
 		{"HasMouse", func(s tcell.Screen, i int) { s.HasMouse() }, true},
 		{"Colors", func(s tcell.Screen, i int) { s.Colors() }, true},
-		{"Show", func(s tcell.Screen, i int) { s.Show() }, true},
-		{"Sync", func(s tcell.Screen, i int) { s.Sync() }, true},
+		{"Show", func(s tcell.Screen, i int) { c10draw(func() { s.Show() }) }, true},
+		{"Sync", func(s tcell.Screen, i int) { c10draw(func() { s.Sync() }) }, true},
 		{"CharacterSet", func(s tcell.Screen, i int) { s.CharacterSet() }, true},
 		{"RegisterRuneFallback", func(s tcell.Screen, i int) { s.RegisterRuneFallback(rune(0x2500+i%8), "+") }, true},
 		{"UnregisterRuneFallback", func(s tcell.Screen, i int) { s.UnregisterRuneFallback(rune(0x2500 + i%8)) }, true},
 		{"CanDisplay", func(s tcell.Screen, i int) { s.CanDisplay(rune(0x2500+i%8), i%2 == 0) }, true},
 		{"HasKey", func(s tcell.Screen, i int) { s.HasKey(tcell.KeyF1 + tcell.Key(i%12)) }, true},
 		{"Beep", func(s tcell.Screen, i int) { _ = s.Beep() }, true},
-		{"SetSize", func(s tcell.Screen, i int) { s.SetSize(40+i%3, 10+i%2) }, true},
+		{"SetSize", func(s tcell.Screen, i int) { s.SetSize(40+i%3, 12+i%2) }, true},
 		{"LockRegion", func(s tcell.Screen, i int) { s.LockRegion(i%38, i%9, 2, 1, i%2 == 0) }, true},
 		{"Tty", func(s tcell.Screen, i int) { s.Tty() }, true},
 		{"SetTitle", func(s tcell.Screen, i int) { s.SetTitle(fmt.Sprint("t", i%5)) }, true},
@@ -86,6 +86,32 @@ func c10methods() []c10method {
 			}
 		}, true},
 	}
+}
+
+// c10draw wraps Show/Sync calls of the job under test (one job at a time per
+// worker process); the job installs a checker of the write log.
+var c10drawHook func(call func())
+
+func c10draw(call func()) {
+	if h := c10drawHook; h != nil {
+		h(call)
+		return
+	}
+	call()
+}
+
+// curGoid returns the id of the calling goroutine (from its stack header).
+func curGoid() int64 {
+	var buf [64]byte
+	n := runtime.Stack(buf[:], false)
+	var id int64
+	for _, c := range buf[len("goroutine "):n] {
+		if c < '0' || c > '9' {
+			break
+		}
+		id = id*10 + int64(c-'0')
+	}
+	return id
 }
 
 type c10job struct {
@@ -127,10 +153,37 @@ func c10runJob(j c10job) (out c10out) {
 	} else {
 		ti := Pristine("xterm-256color")
 		ti.PadChar = ""
-		ft = faketty.New(40, 10)
-		term = vt.New(43, 12)
+		ft = faketty.New(40, 12)
+		term = vt.New(43, 14)
 		term.Acs = vt.BuildAcs(ti.AltChars)
+		var wlog []int64 // goroutine id of every Write, in order (appended under the tty lock)
+		c10drawHook = func(call func()) {
+			me := curGoid()
+			var from int
+			ft.Locked(func() { from = len(wlog) })
+			call()
+			ft.Locked(func() {
+				// the writes this goroutine made during the call must be one run: nothing
+				// from another goroutine in between
+				first, last := -1, -1
+				for k := from; k < len(wlog); k++ {
+					if wlog[k] == me {
+						if first < 0 {
+							first = k
+						}
+						last = k
+					}
+				}
+				for k := first; first >= 0 && k <= last; k++ {
+					if wlog[k] != me && termErr.Load() == nil {
+						termErr.Store(fmt.Sprintf("the output of one Show/Sync reached the tty in %d writes with a write of another goroutine in between", last-first+1))
+					}
+				}
+			})
+		}
+		defer func() { c10drawHook = nil }()
 		ft.OnWrite = func(b []byte) {
+			wlog = append(wlog, curGoid())
 			term.Feed(b)
 			out.Blocks++
 			if !term.InGround() && termErr.Load() == nil {
@@ -150,6 +203,14 @@ func c10runJob(j c10job) (out c10out) {
 		if err := s.Init(); err != nil {
 			out.Problem = err.Error()
 			return
+		}
+	}
+	if !j.Sim {
+		// a fully styled screen: one update is well above 4 KiB
+		for y := 0; y < 12; y++ {
+			for x := 0; x < 40; x++ {
+				s.SetContent(x, y, rune('a'+(x+y)%26), nil, tcell.StyleDefault.Foreground(tcell.PaletteColor((x+y)%256)).Background(tcell.PaletteColor((x*7+y)%256)).Bold(x%2 == 0))
+			}
 		}
 	}
 	hasPoll, hasFini := false, false
@@ -183,7 +244,7 @@ func c10runJob(j c10job) (out c10out) {
 			for atomic.LoadInt32(&stop) == 0 {
 				k++
 				if k%50 == 0 {
-					ft.SetSize(40+k%3, 10+k%2)
+					ft.SetSize(40+k%3, 12+k%2)
 					ft.NotifyNow()
 				}
 				runtime.Gosched()
@@ -342,7 +403,7 @@ func C10(r *core.Run) {
 	r.Rule = "Go race detector (build -race, halt_on_error=0, reports to per-worker log files) over concurrent use of one Screen: for every unordered pair (self-pairs included) of 37 Screen methods on a live terminfo screen over the fake tty, and of the 36 applicable ones on a SimulationScreen, two goroutines call the methods in tight loops with small argument variation while the library's own goroutines are kept busy (input feeder, resize notifications, event drain); seeded larger method sets in thorough. Reports are parsed from the logs, cut at the goroutine-creation trailer, reduced to the pair of outermost tcell entry points and de-duplicated; every Write block must end with the reference terminal's tokenizer in ground state and the whole output must be well formed; panics and runtime fatal errors are violations. non-trivial = a pair run to completion; distinct = distinct method set."
 	r.Assumptions = []string{"the detector only sees races on executed paths inside its history window: 'no race observed in N pair-runs'", "PollEvent and ChannelEvents are never run together (the API forbids it)", "Suspend/Resume cycles and Fini are paired with every other method but not with each other: their mutual order is the application's responsibility", "a pair whose process hangs is reported by C06's monitor, not here"}
 	methods := c10methods()
-	iters := r.Pick(150, 4000)
+	iters := r.Pick(100, 4000)
 	var jobs []c10job
 	add := func(ms []string, sim bool) {
 		// lifecycle calls are sequenced by the application (Resume follows a completed
